@@ -199,7 +199,11 @@ func (r *Result) event(format string, a ...any) {
 	r.Events = append(r.Events, e)
 }
 func (r *Result) violate(prop, pred, sig, format string, a ...any) {
-	r.Violations = append(r.Violations, Violation{Property: prop, Predicate: pred, Message: fmt.Sprintf(format, a...), Signature: sig})
+	msg := fmt.Sprintf(format, a...)
+	if curRoot != "" {
+		msg = strings.ReplaceAll(msg, curRoot, "$W") // the same message from every sandbox directory
+	}
+	r.Violations = append(r.Violations, Violation{Property: prop, Predicate: pred, Message: msg, Signature: sig})
 }
 func (r *Result) distinct(k string) { r.Distinct = append(r.Distinct, k) }
 
